@@ -1,4 +1,5 @@
 """C03 - an FSM follows its transition table and runs its actions in the documented order.  DESIGN section 3, C03."""
+import os
 from pyvc.sorts import *
 from pyvc import scan
 from specs.common import *
@@ -13,15 +14,20 @@ FSM_GRID_BOUND = ('7 hand-made and 60 generated FSM definitions (<= 3 states, <=
 
 def build(run):
     fsm.verify_fsm(run, what=('c03',))
+    from specs import fsm_tables
+    fsm_tables.verify_tables(run)          # STATES / TIMERS / EVENTS -> control tables
     scan_library_tables(run)
     w = scan.attr_writers('_state')
     run.scan('writers_of__state', w == ['edzed/fsm.py:FSM.__init__', 'edzed/fsm.py:FSM._ctx_event', 'edzed/fsm.py:FSM._restore_state'], f'{w}')
     w = scan.attr_writers('_next_event')
     run.scan('writers_of__next_event', w == ['edzed/fsm.py:FSM.__init__', 'edzed/fsm.py:FSM._ctx_event'], f'{w}')
     run.bounded_native('fsm_definitions_through_the_real_class_machinery', 'fsm_tables_grid.py', FSM_GRID_BOUND)
-    run.unclaim('FSM._build_tables and FSM.__init__ keyword parsing for arbitrary FSM definitions: not under contract (class-level code over '
-                'class attributes, string splitting); reflected for the library FSMs (Timer, InputExp: scan) and covered by the bounded stand-in '
-                'below; the transition contract takes well-formed tables as its precondition')
+    callers = scan.method_callers('_build_tables')
+    run.scan('tables_are_built_when_the_class_is_created', callers == ['edzed/fsm.py:FSM.__init_subclass__'], f'{callers}')
+    run.unclaim('FSM._build_tables: the discovery of cond_/enter_/exit_ methods (reflection over vars(cls)), the chain limit as 3 x the number of states '
+                '(cardinality of a set) and the converse inclusion (nothing but the rules of the definition is in the table) are not under contract; '
+                'FSM.__init__ keyword parsing for arbitrary FSM definitions is not under contract; both are covered by the bounded stand-in only. '
+                'The transition contract (_ctx_event) takes well-formed tables as its precondition')
     run.replayer('sees_the_data_of_the_event_that_caused_it', _replay_ctx)
     run.assume('callbacks (cond/enter/exit, calc_output) are user code: they reach the FSM only through event() and sdata')
     run.assume('A-C02; FSM.calc_output is a deterministic function of state and state data')
